@@ -521,7 +521,7 @@ pub fn c10_case(rep: &mut Report, seed: u64, verbose: bool) -> bool {
 
 pub fn c10(rep: &mut Report, cfg: &Cfg) {
     let mut rng = cfg.rng("C10");
-    let n = cfg.share(cfg.n(320, 12_000)).max(2);
+    let n = cfg.share(cfg.n(320, 40_000)).max(2);
     for _ in 0..n {
         let seed = rng.next();
         c10_case(rep, seed, false);
